@@ -1145,6 +1145,35 @@ static Byte TryConvert(Byte TypeMask, TempType ActType, int OpIndex) {
     return 255;
 }
 
+/*!------------------------------------------------------------------------
+ * \fn     IsFloatExponentSign(const char *pStart, const char *pSign)
+ * \brief  is the minus sign at pSign the exponent sign of a floating point literal?
+ * \param  pStart start of expression
+ * \param  pSign position of '-'
+ * \return True if it belongs to a literal of the form digits[.digits]E-digits
+ * ------------------------------------------------------------------------ */
+
+static Boolean IsFloatExponentSign(char const* pStart, char const* pSign) {
+    char const* pRun;
+
+    if ((*pSign != '-') || (RadixBase > 10) || (pSign - pStart < 2)
+        || (as_toupper(pSign[-1]) != 'E') || !as_isdigit(pSign[1])) {
+        return False;
+    }
+    for (pRun = pSign - 2; (pRun >= pStart) && (as_isdigit(*pRun) || (*pRun == '.'));
+         pRun--)
+        ;
+    if ((pRun == pSign - 2) || !as_isdigit(pRun[1])) {
+        return False;
+    }
+
+    /* a letter, digit, '$', '_' ... in front means the digits are the tail of a symbol
+       or of a constant in another notation ($1E-3, 0x1E-3), not a decimal mantissa */
+
+    return (pRun < pStart) || !(as_isalnum(*pRun) || (*pRun == '_') || (*pRun == '$')
+                                || (*pRun == '@') || (*pRun == '%') || (*pRun == '\''));
+}
+
 void EvalStrExpression(tStrComp const* pExpr, TempResult* pErg) {
     Operator const* pOp;
     Operator const* FOps[OPERATOR_MAXCNT];
@@ -1292,7 +1321,8 @@ void EvalStrExpression(tStrComp const* pExpr, TempResult* pErg) {
             }
             break;
         default:
-            if ((LKlamm == RKlamm) && (WKlamm == 0) && (!InSgl) && (!InDbl)) {
+            if ((LKlamm == RKlamm) && (WKlamm == 0) && (!InSgl) && (!InDbl)
+                && !IsFloatExponentSign(CopyComp.str.p_str, zp)) {
                 Boolean OpFnd = False;
                 sint    OpLen = 0, LocOpMax = 0;
 
